@@ -145,13 +145,16 @@ CHECKS = {
         note="CPython's re engine is modelled as greedy leftmost backtracking; \\d as [0-9].",
         design="DESIGN.md section 6 C13"),
     "C14": dict(
-        text="Coq theorem C14_roundtrip: for every accepted (short, version, known type[, base product]) outside the inherently "
-             "ambiguous class K2, parse_release_id (create_release_id ...) returns the parts; C14_ambiguous shows K2 is inherent; "
-             "C14_create_refuses_iff. The predicates are the regenerated regexes run by the verified-sound/complete matcher "
-             "(Proofs/RegexSem.v). The 'accept exactly the documented language' clause is checked by exhaustive enumeration "
-             "(all strings up to length 5 quick / 7 thorough over the 7-class alphabet) against an independent recogniser - a "
-             "finite sweep, not yet a theorem (partial).",
-        note="Partial: language equality of the predicates is an exhaustive bounded sweep, not an unbounded theorem.",
+        text="Coq theorems: C14_roundtrip (for every accepted (short, version, known type[, base product]) outside the inherently "
+             "ambiguous class K2, parse_release_id (create_release_id ...) returns the parts), C14_ambiguous (K2 is inherent), "
+             "C14_create_refuses_iff, and C14_short_lang / C14_type_lang / C14_version_lang: the three predicates - the patterns "
+             "regenerated from the source, run by the matcher proved sound and complete against the declarative regex semantics "
+             "- accept EXACTLY the documented languages, for all strings of any length (up to Python's '$' matching before a "
+             "final newline). Tie: create/parse/predicates vs the model, incl. all strings up to length 5 (quick) / 7 (thorough) "
+             "over the 7-class alphabet against an independent recogniser.",
+        note="The language theorems are stated against the analysed pattern shapes; the obligation `re_release_* = shape` is "
+             "re-checked against the regenerated patterns (a language-preserving rewrite of a pattern breaks it and is then "
+             "searched by the exhaustive sweep). Known finding K2.",
         design="DESIGN.md section 6 C14"),
     "C15": dict(
         text="Coq theorems C15_prefix, C15_self_valid (the regenerated compose-id pattern accepts every created id, via the "
